@@ -377,3 +377,68 @@ def run_pipeline(ff_text, g, stages=('map', 'links'), mods=None, capture_log=Fal
             out['error'] = f'{type(exc).__name__}: {exc}'
             out['exc_type'] = type(exc).__name__
     return out
+
+
+# ------------------------------------------------------------------ links that remove an atom, among links that name it
+def gen_removal_ff(rng):
+    """a chain of MON residues (A-B-H) with a link that removes H where two residues join and further links that name H
+    (an interaction on it, dropped with the atom) beside interactions on atoms that stay; returns the links (any order of
+    the non-overwriting ones must give the same molecule) and the number of residues"""
+    links = [{'name': 'remove', 'atoms': ['H {"replace": {"atomname": null}}'], 'inters': [('bonds', ['B', '+A'], ['1', '0.37', '7000'])]},
+             {'name': 'junction', 'atoms': [], 'inters': [('angles', ['A', 'B', '+A'], ['2', '120', '50']), ('angles', ['H', 'B', '+A'], ['2', '100', '20'])]}]
+    if rng.random() < 0.5:
+        links.append({'name': 'dihedral', 'atoms': ['H {}'], 'inters': [('dihedrals', ['A', 'B', '+A', '+B'], ['1', '0', '5', '3'])]})
+    override = None
+    if rng.random() < 0.5:
+        # defined last: overrides the bond of the removing link, and names H as well
+        override = {'name': 'override', 'atoms': [], 'inters': [('bonds', ['B', '+A'], ['1', '0.40', '9000']), ('bonds', ['H', '+A'], ['1', '0.50', '100'])]}
+    return {'links': links, 'override': override, 'nres': rng.randint(2, 5)}
+
+
+def removal_ff_text(case, order):
+    lines = ['[ moleculetype ]', 'MON 1', '[ atoms ]', '1 P1 1 MON A 1 0.0 45', '2 P2 1 MON B 2 0.0 45', '3 P3 1 MON H 3 0.0 1',
+             '[ bonds ]', 'A B 1 0.30 1000', 'B H 1 0.11 2000']
+    links = [case['links'][i] for i in order] + ([case['override']] if case['override'] else [])
+    for ln in links:
+        lines += ['[ link ]', 'resname "MON"']
+        if ln['atoms']:
+            lines += ['[ atoms ]'] + ln['atoms']
+        sec = None
+        for s_, ats, ps in ln['inters']:
+            if s_ != sec:
+                lines.append(f'[ {s_} ]')
+                sec = s_
+            lines.append(' '.join(ats) + ' ' + ' '.join(ps))
+    return '\n'.join(lines) + '\n'
+
+
+def removal_expected(case):
+    """from the definitions: atoms (name, residue) and interactions (section, atoms as (name, residue), parameters)"""
+    n = case['nres']
+    removed = {('H', r) for r in range(1, n)}
+    atoms = sorted((nm, r) for r in range(1, n + 1) for nm in 'ABH' if (nm, r) not in removed)
+    inters = {}
+    for r in range(1, n + 1):
+        inters[('bonds', (('A', r), ('B', r)))] = ('1', '0.30', '1000')
+        inters[('bonds', (('B', r), ('H', r)))] = ('1', '0.11', '2000')
+    for ln in case['links'] + ([case['override']] if case['override'] else []):
+        for r in range(1, n):
+            for s_, ats, ps in ln['inters']:
+                key = (s_, tuple((a.lstrip('+'), r + (1 if a.startswith('+') else 0)) for a in ats))
+                inters[key] = tuple(ps)
+    inters = {k: v for k, v in inters.items() if not set(k[1]) & removed}
+    return atoms, sorted((k[0], k[1], v) for k, v in inters.items())
+
+
+def removal_observed(out):
+    snap = out['links']
+    ident = {a['key']: (a['name'], a['resid']) for a in snap['atoms']}
+    atoms = sorted(ident.values())
+    inters = sorted((sec, tuple(ident.get(x, ('?', x)) for x in r['atoms']), tuple(r['params'])) for sec, rows in snap['inters'].items() for r in rows)
+    return atoms, inters
+
+
+def removal_graph(case):
+    n = case['nres']
+    return {'nres': n, 'shape': 'path', 'resnames': ['MON'] * n, 'edges': [(i, i + 1) for i in range(n - 1)], 'r0': 1,
+            'keys': list(range(n)), 'order': list(range(n)), 'edge_order': list(range(n - 1)), 'flip': [False] * (n - 1)}
